@@ -282,7 +282,7 @@ impl Prop for C12Prop {
             Section {
                 name: "compiled",
                 kind: SectionKind::Random {
-                    cases: tier.pick(400, 3_000),
+                    cases: tier.pick(400, 2_000),
                     maxlen: 6000,
                 },
                 exhaustive: false,
@@ -291,7 +291,7 @@ impl Prop for C12Prop {
             Section {
                 name: "raw",
                 kind: SectionKind::Random {
-                    cases: tier.pick(2_500, 40_000),
+                    cases: tier.pick(2_500, 30_000),
                     maxlen: 2400,
                 },
                 exhaustive: false,
